@@ -4,7 +4,7 @@ import z3
 
 from .values import PathEnd, Sym, mk
 
-FEAS_TIMEOUT_MS = 1000
+FEAS_TIMEOUT_MS = int(__import__("os").environ.get("PYVC_FEAS_MS", "300"))
 
 
 class Obligation(object):
